@@ -2,7 +2,7 @@
 //!
 //! This is a private module. Its public types are re-exported by the parent.
 
-use super::super::scan::Scanner;
+use super::super::scan::{Scanner, Symbol, Symbols};
 use super::super::wire::ParseError;
 use super::absolute::Name;
 use super::builder::{FromStrError, NameBuilder, PushError};
@@ -140,7 +140,29 @@ impl<Octets> UncertainName<Octets> {
     {
         let mut builder =
             NameBuilder::<<Octets as FromBuilder>::Builder>::new();
-        builder.append_chars(chars)?;
+        let root = Symbols::with(chars.into_iter(), |symbols| {
+            // NameBuilder can’t deal with a single dot, so we need to
+            // special case the root name.
+            match symbols.next() {
+                Some(Symbol::Char('.')) => {
+                    if symbols.next().is_some() {
+                        Err(FromStrError::empty_label())
+                    } else {
+                        Ok(true)
+                    }
+                }
+                Some(first) => {
+                    builder.push_symbol(first)?;
+                    builder.append_symbols(symbols)?;
+                    Ok(false)
+                }
+                None => Ok(false),
+            }
+        })?;
+        if root {
+            return Name::from_symbols(core::iter::once(Symbol::Char('.')))
+                .map(Into::into);
+        }
         if builder.in_label() || builder.is_empty() {
             Ok(builder.finish().into())
         } else {
